@@ -38,7 +38,8 @@ class Ctx:
         # ---- generic axes, drawn independently of the (representation, condition) cell; about half plain ----
         self.axes = {}
         self.scale = 1.0
-        if rng.random() < 0.45:                                   # (i) magnitude
+        plain = rng.random() < 0.5                                # about half of the cases stay plain
+        if not plain and rng.random() < 0.6:                      # (i) magnitude
             if self.rep == 'int':
                 self.scale = float(2.0 ** int(rng.integers(0, 7)))
             elif rng.random() < 0.5:
@@ -48,18 +49,20 @@ class Ctx:
             self.axes['magnitude'] = 1
             if self.scale < 1e-6 or self.scale > 1e6:
                 self.axes['magnitude_extreme'] = 1
-        self.altunit = bool(self.rep == 'quantity' and rng.random() < 0.4)   # (ii) equivalent but different units
+        self.altunit = bool(not plain and self.rep == 'quantity' and rng.random() < 0.5)   # (ii) different units
         if self.altunit:
             self.axes['alt_unit_secondary_inputs'] = 1
-        self.qtable = bool(rng.random() < 0.35)                   # (ii) Table vs QTable independent of the rep
-        elong = rng.random() < 0.3                                # (iv) shape
+        self.qtable = bool(not plain and rng.random() < 0.5)      # (ii) Table vs QTable independent of the rep
+        elong = (not plain) and rng.random() < 0.45               # (iv) shape
         if elong:
             short, long_ = int(rng.integers(26, 33)), int(rng.integers(58, 81))
             ny, nx = (short, long_) if rng.random() < 0.5 else (long_, short)
             self.axes['elongated'] = 1
         else:
             ny, nx = int(rng.integers(36, 47)), int(rng.integers(36, 47))
-            if abs(nx - ny) >= 2:
+            if plain:
+                nx = ny
+            elif abs(nx - ny) >= 2:
                 self.axes['non_square'] = 1
         self.shape = (ny, nx)
         n = int(rng.integers(3, 6))
@@ -250,7 +253,7 @@ class Ctx:
                 out = a
         elif rep == 'float32':
             # (iii) narrow or non-native dtypes
-            dt = [np.float32, np.float32, '>f8', '>f4'][int(self.rng.integers(0, 4))]
+            dt = [np.float32, np.float32, '>f8', '>f4'][int(self.rng.integers(0, 4))] if self.axes is not None else np.float32
             out = a.astype(dt)
             if dt not in (np.float32,):
                 self.axes['big_endian'] = 1
